@@ -20,7 +20,7 @@ import (
 
 type body struct{ *strings.Reader }
 
-func (body) Close() error { return nil }
+func (body) Close() error            { return nil }
 func newBody(s string) io.ReadCloser { return body{strings.NewReader(s)} }
 
 // StubJWKS is a JWKSFetcherStrategy without background goroutines or network.
@@ -43,13 +43,14 @@ func (s StubJWKS) Resolve(ctx context.Context, location string, ignoreCache bool
 
 // Auth describes how client credentials are attached to a request.
 type Auth struct {
-	Mode      string // "basic" | "post" | "both" | "none" | "raw" | "id_only" (client_id in body, no secret)
-	ID        string
-	Secret    string
-	RawHeader string // Mode raw: the literal Authorization header
-	NoEscape  bool   // basic: do not form-urlencode id/secret before base64
-	Assertion string // client_assertion (adds client_assertion_type)
+	Mode          string // "basic" | "post" | "both" | "none" | "raw" | "id_only" (client_id in body, no secret)
+	ID            string
+	Secret        string
+	RawHeader     string // Mode raw: the literal Authorization header
+	NoEscape      bool   // basic: do not form-urlencode id/secret before base64
+	Assertion     string // client_assertion (adds client_assertion_type)
 	AssertionType string // override client_assertion_type
+	BodySecret    string // additionally put client_secret (only) into the body
 }
 
 func Basic(id, secret string) Auth { return Auth{Mode: "basic", ID: id, Secret: secret} }
@@ -76,6 +77,9 @@ func (a Auth) apply(r *http.Request, form url.Values) {
 	case "raw":
 		r.Header.Set("Authorization", a.RawHeader)
 	case "none", "":
+	}
+	if a.BodySecret != "" {
+		form.Set("client_secret", a.BodySecret)
 	}
 	if a.Assertion != "" || a.AssertionType != "" {
 		t := a.AssertionType
@@ -230,14 +234,14 @@ func (w *World) Token(form url.Values, a Auth, mut ...TokenMut) (out *Out) {
 // ---- authorization endpoint -----------------------------------------------------
 
 type Consent struct {
-	Deny     bool
-	Subject  string
-	EmptySubject bool // really use an empty subject (Subject "" otherwise means the default user)
-	Scopes   []string // nil => grant everything requested
-	NoAud    bool     // do not grant requested audience
-	SessMut  func(*Sess)
-	ReqMut   func(fosite.AuthorizeRequester)
-	DenyErr  error
+	Deny         bool
+	Subject      string
+	EmptySubject bool     // really use an empty subject (Subject "" otherwise means the default user)
+	Scopes       []string // nil => grant everything requested
+	NoAud        bool     // do not grant requested audience
+	SessMut      func(*Sess)
+	ReqMut       func(fosite.AuthorizeRequester)
+	DenyErr      error
 }
 
 // AuthzOut is the parsed result of the authorization endpoint.
@@ -578,4 +582,6 @@ func (w *World) DeviceDecide(userCode string, accept bool, subject string, scope
 	return nil
 }
 
-func (w *World) String() string { return fmt.Sprintf("world(jwt=%v db=%v)", w.Opts.JWTAccess, w.Opts.Mode.DB) }
+func (w *World) String() string {
+	return fmt.Sprintf("world(jwt=%v db=%v)", w.Opts.JWTAccess, w.Opts.Mode.DB)
+}
